@@ -558,6 +558,7 @@ def explore(ct, max_paths=600, ieee=False, prefix=()):
     while stack:
         dec = stack.pop()
         path = S.Path(dec, ieee=ieee)
+        path.sqrt_factor = bool(ct.opts.get('sqrt_factor', False))
         S.set_path(path)
         ctx = Ctx('sym', path=path)
         err = None
